@@ -1567,4 +1567,8 @@ func TestVerifC04(t *testing.T) {
 		h.env = c04cRandEnv(fr.Fork(9))
 		h.run("random", specs)
 	}
+	h.env = nil
+
+	// round 5: the clients HTTP API (zz_verif_C04http_test.go)
+	c04hMain(t, h)
 }
